@@ -254,6 +254,20 @@ func c12WellFormed(t gen.TermV) bool {
 		return len(t.Args) == 1 && t.Args[0].K == "const" && t.Args[0].Val.K == "name"
 	case "fn:opt":
 		return false
+	case "fn:Tuple":
+		// the library rejects a top-level tuple type with fewer than 3 components but does not
+		// look inside struct fields: such a type is ill-formed wherever it occurs
+		if len(t.Args) < 3 {
+			return false
+		}
+	case "fn:Pair", "fn:Map":
+		if len(t.Args) != 2 {
+			return false
+		}
+	case "fn:List", "fn:Option":
+		if len(t.Args) != 1 {
+			return false
+		}
 	}
 	for _, a := range t.Args {
 		if !c12WellFormed(a) {
@@ -438,6 +452,15 @@ func c12Members(r *rand.Rand, t gen.TermV, depth int, out *[]gen.Val) {
 				add(gen.StructV(kv...))
 				// with an extra field
 				add(gen.StructV(append(append([]gen.Val{}, kv...), gen.Name("/zextra"), gen.Num(1))...))
+			}
+			if len(opt) > 0 { // near miss: an optional field is present but holds a value of another kind
+				var kv []gen.Val
+				for _, f := range req {
+					kv = append(kv, *f[0].Val, one(f[1]))
+				}
+				f := opt[r.Intn(len(opt))]
+				kv = append(kv, *f[0].Val, gen.BytesV([]byte("alien")))
+				add(gen.StructV(kv...))
 			}
 			if len(req) > 0 { // missing a required field
 				var kv []gen.Val
